@@ -409,3 +409,45 @@ pub mod inbound {
 		keys.verif_key_parts()
 	}
 }
+
+/// Router fee arithmetic (`routing::router`, crate-private) for the C16 differential.
+pub mod router {
+	#![allow(missing_docs)]
+	use crate::routing::gossip::EffectiveCapacity;
+	use lightning_types::routing::RoutingFees;
+
+	/// [`crate::routing::router::compute_fees`]
+	pub fn compute_fees(amount_msat: u64, base_msat: u32, proportional_millionths: u32) -> Option<u64> {
+		crate::routing::router::compute_fees(
+			amount_msat,
+			RoutingFees { base_msat, proportional_millionths },
+		)
+	}
+
+	/// `routing::router::compute_fees_saturating`
+	pub fn compute_fees_saturating(amount_msat: u64, base_msat: u32, proportional_millionths: u32) -> u64 {
+		crate::routing::router::verif::compute_fees_saturating(
+			amount_msat,
+			RoutingFees { base_msat, proportional_millionths },
+		)
+	}
+
+	/// `routing::router::max_htlc_from_capacity`
+	pub fn max_htlc_from_capacity(
+		capacity: EffectiveCapacity, max_channel_saturation_power_of_half: u8,
+	) -> u64 {
+		crate::routing::router::verif::max_htlc_from_capacity(
+			capacity,
+			max_channel_saturation_power_of_half,
+		)
+	}
+
+	/// `PaymentPath::update_value_and_recompute_fees` on a synthetic path of private-hop candidates
+	/// `(base_msat, proportional_millionths, htlc_minimum_msat)`, payer side first. Returns the
+	/// per-hop `fee_msat`s and the function's return value.
+	pub fn update_value_and_recompute_fees(
+		hops: &[(u32, u32, u64)], value_msat: u64,
+	) -> (Vec<u64>, u64) {
+		crate::routing::router::verif::update_value_and_recompute_fees(hops, value_msat)
+	}
+}
